@@ -50,3 +50,52 @@ Proof.
   - apply of_to_val_ivf; assumption.
 Qed.
 Print Assumptions C07_reload_is_identity_ivf.
+
+(** PQ / IVFPQ by design do not persist raw vectors: a flushed state reads back as the same state
+    WITHOUT them ([strip]), and no search of these kinds ever reads them — so every query over vectors
+    (node-id queries excluded, as in the property) is answered identically after a reload. *)
+Theorem C07_reload_pq : forall p bm tr books l rest,
+  p_kind p = KPQ -> 0 < p_dsub p -> books_wf (p_dsub p) books -> (tr = false -> books = []) ->
+  let s := mk_state tr [] books [l] in
+  wt (fmt_vec p) (to_val p bm s) ->
+  exists v, decode (fmt_vec p) (encode (fmt_vec p) (to_val p bm s) ++ rest) = Some (v, rest) /\
+            of_val p v = Some (strip s) /\
+            forall rq q, search_single p (strip s) rq q = search_single p s rq q.
+Proof.
+  intros p bm tr books l rest Hk Hd Hw Hb s Hwt. exists (to_val p bm s). split; [apply decode_encode; exact Hwt|].
+  split; [apply of_to_val_pq; assumption|]. intros rq q. apply search_ignores_raw_vectors. now left.
+Qed.
+Print Assumptions C07_reload_pq.
+
+Theorem C07_reload_ivfpq : forall p bm tr cents books lists rest,
+  p_kind p = KIVFPQ -> 0 < p_dsub p -> books_wf (p_dsub p) books -> (tr = false -> cents = [] /\ books = []) ->
+  let s := mk_state tr cents books lists in
+  wt (fmt_vec p) (to_val p bm s) ->
+  exists v, decode (fmt_vec p) (encode (fmt_vec p) (to_val p bm s) ++ rest) = Some (v, rest) /\
+            of_val p v = Some (strip s) /\
+            forall rq q, search_single p (strip s) rq q = search_single p s rq q.
+Proof.
+  intros p bm tr cents books lists rest Hk Hd Hw Hb s Hwt. exists (to_val p bm s). split; [apply decode_encode; exact Hwt|].
+  split; [apply of_to_val_ivfpq; assumption|]. intros rq q. apply search_ignores_raw_vectors. now right.
+Qed.
+Print Assumptions C07_reload_ivfpq.
+
+(** the hypotheses are met by concrete, non-trivial states (well-typedness decided by computation) *)
+From Comet Require Import Proofs.WtbP.
+Definition c07_pflat : params := {| p_kind := KFlat; p_dim := 2; p_metric := L2; p_nlist := 1; p_M := 1; p_nbits := 1 |}.
+Definition c07_lflat : list entry :=
+  [{| e_id := 7; e_vec := [1065353216; 0]; e_code := [] |}; {| e_id := 9; e_vec := [0; 1073741824]; e_code := [] |}].
+Example C07_hyps_flat :
+  Forall raw_entry c07_lflat /\
+  wt (fmt_vec c07_pflat) (to_val c07_pflat [58; 48; 0; 0] (mk_state true [] [] [c07_lflat])).
+Proof. split; [repeat constructor|]. apply wtb_sound. vm_compute. reflexivity. Qed.
+
+Definition c07_ppq : params := {| p_kind := KPQ; p_dim := 2; p_metric := L2; p_nlist := 1; p_M := 2; p_nbits := 1 |}.
+Example C07_hyps_pq :
+  let books := [[[0]; [1065353216]]; [[0]; [1073741824]]] in
+  let l := [{| e_id := 3; e_vec := [1065353216; 0]; e_code := [1; 0] |}] in
+  0 < p_dsub c07_ppq /\ books_wf (p_dsub c07_ppq) books /\
+  wt (fmt_vec c07_ppq) (to_val c07_ppq [58; 48; 0; 0] (mk_state true [] books [l])).
+Proof.
+  cbv zeta. split; [reflexivity|]. split; [repeat constructor|]. apply wtb_sound. vm_compute. reflexivity.
+Qed.
